@@ -125,11 +125,22 @@ Section Proofs.
       exists (f a ++ pre), post. rewrite E1, E2, <- !app_assoc. auto.
   Qed.
 
+  Lemma NoDup_app_l {A} (a b : list A) : NoDup (a ++ b) -> NoDup a.
+  Proof.
+    induction a as [|x a IH]; intros H; [constructor|]. cbn in H. inversion H; subst.
+    constructor; [|auto]. intros Hin. apply H2. apply in_or_app. now left.
+  Qed.
+
   Lemma Forall_set_nth {A} (Q : A -> Prop) (l : list A) : forall n x,
     Forall Q l -> Q x -> Forall Q (set_nth n x l).
   Proof.
     induction l; intros [|n] x Hl Hx; cbn; auto; inversion Hl; subst; constructor; auto.
   Qed.
+
+  Ltac inapp := repeat match goal with
+                       | H : context [In _ (_ ++ _)] |- _ => rewrite in_app_iff in H
+                       | |- context [In _ (_ ++ _)] => rewrite in_app_iff
+                       end.
 
   (** * NATS *)
   Definition took1 (w : wstate) : list msg := match w with WTook m => [m] | _ => [] end.
@@ -424,5 +435,252 @@ Section Proofs.
     - rewrite nrun_app in Hrun. destruct (nrun dlv (ninit P topic nw cap) tr) as [s1|] eqn:E1; [|discriminate].
       cbn in Hrun. destruct (nstep dlv s1 e) as [s2|] eqn:E2; [|discriminate]. injection Hrun as <-.
       eapply nstep_inv; eauto.
+  Qed.
+
+  (** ** consequences *)
+  Definition nquiescent (s : nats P) : Prop := forall e, n_internal e = true -> nstep dlv s e = None.
+
+  Lemma nstep_cap s e s' : nstep dlv s e = Some s' -> n_cap s' = n_cap s.
+  Proof.
+    destruct e as [t b| | |i|i|i| |i]; cbn [nstep]; intros H.
+    - now injection H as <-.
+    - destruct (n_sub s), (n_cb s), (n_pend s); try discriminate. now injection H as <-.
+    - destruct (n_cb s); [|discriminate]. destruct (_ <? _); [|discriminate]. now injection H as <-.
+    - destruct (nth_error _ _) as [[]|]; try discriminate. destruct (n_workc s); [discriminate|]. now injection H as <-.
+    - destruct (nth_error _ _) as [[]|]; try discriminate. destruct (dlv _); now injection H as <-.
+    - destruct (nth_error _ _) as [[]|]; try discriminate. now injection H as <-.
+    - destruct (n_sub s); now injection H as <-.
+    - destruct (nth_error _ _) as [[]|]; try discriminate. destruct (n_quit s); [|discriminate]. now injection H as <-.
+  Qed.
+
+  Lemma nrun_cap tr : forall s s', nrun dlv s tr = Some s' -> n_cap s' = n_cap s.
+  Proof.
+    induction tr as [|e tr IH]; intros s s' H; cbn in H; [now injection H as <-|].
+    destruct (nstep dlv s e) eqn:E; [|discriminate]. rewrite (IH _ _ H). eapply nstep_cap; eauto.
+  Qed.
+
+  Lemma took_nil ws : (forall i m, nth_error ws i <> Some (WTook m)) -> took ws = [].
+  Proof.
+    induction ws as [|w ws IH]; intros H; [reflexivity|].
+    change (took (w :: ws)) with (took1 w ++ took ws).
+    rewrite IH; [|intros i m; apply (H (S i) m)].
+    destruct w; cbn; auto. exfalso. apply (H 0 m). reflexivity.
+  Qed.
+
+  Lemma nquiescent_empty nw tr s :
+    ninv nw tr s -> unsub_free tr -> crash_free tr -> 0 < nw -> 0 < n_cap s -> nquiescent s ->
+    took (n_workers s) = [] /\ nflight s = [].
+  Proof.
+    intros Hi Hu Hc Hnw Hcap Hq.
+    destruct (ni_sub _ _ _ Hi Hu) as [Es Eq].
+    pose proof (ni_alive _ _ _ Hi Hu Hc) as Hal. pose proof (ni_nw _ _ _ Hi) as Hl.
+    assert (Hidle : forall i w, nth_error (n_workers s) i = Some w -> w = WIdle).
+    { intros i w Hn. pose proof (proj1 (Forall_forall _ _) Hal w (nth_error_In _ _ Hn)) as Ha.
+      destruct w; try contradiction; auto.
+      - specialize (Hq (NStart i) eq_refl). cbn [nstep] in Hq. rewrite Hn in Hq. destruct (dlv (m_body m)); discriminate.
+      - specialize (Hq (NDone i) eq_refl). cbn [nstep] in Hq. rewrite Hn in Hq. discriminate. }
+    assert (H0 : nth_error (n_workers s) 0 = Some WIdle).
+    { destruct (nth_error (n_workers s) 0) as [w|] eqn:E0.
+      - f_equal. eapply Hidle; eauto.
+      - apply nth_error_None in E0. lia. }
+    split.
+    - apply took_nil. intros i m Hn. apply Hidle in Hn. discriminate.
+    - assert (Hw : n_workc s = []).
+      { specialize (Hq (NTake 0) eq_refl). cbn [nstep] in Hq. rewrite H0 in Hq. destruct (n_workc s); [auto|discriminate]. }
+      assert (Hcb : n_cb s = None).
+      { specialize (Hq NEnqueue eq_refl). cbn [nstep] in Hq. destruct (n_cb s); [|auto]. rewrite Hw in Hq.
+        destruct (n_cap s); [lia|]. cbn in Hq. discriminate. }
+      assert (Hp : n_pend s = []).
+      { specialize (Hq NDispatch eq_refl). cbn [nstep] in Hq. rewrite Es, Hcb in Hq. destruct (n_pend s); [auto|discriminate]. }
+      unfold nflight. now rewrite Hw, Hcb, Hp.
+  Qed.
+
+  (** c07_single_worker_exact (NATS) *)
+  Lemma nats_single_worker_exact cap tr s :
+    0 < cap -> nrun dlv (ninit P topic 1 cap) tr = Some s -> unsub_free tr -> crash_free tr ->
+    (exists rest, owed dlv topic 0 (npubs tr) = n_log s ++ rest) /\
+    (nquiescent s -> n_log s = owed dlv topic 0 (npubs tr)).
+  Proof.
+    intros Hcap Hrun Hu Hc. pose proof (nrun_inv 1 cap tr s Hrun) as Hi.
+    pose proof (ni_order _ _ _ Hi Hu eq_refl) as Ho. split.
+    - eexists. symmetry. exact Ho.
+    - intros Hq. destruct (nquiescent_empty 1 tr s Hi Hu Hc) as [Et Ef]; auto.
+      { rewrite (nrun_cap _ _ _ Hrun). exact Hcap. }
+      rewrite Et, Ef in Ho. cbn in Ho. now rewrite app_nil_r in Ho.
+  Qed.
+
+  (** c07_n_workers_multiset (NATS): at most once always; exactly once at quiescence *)
+  Lemma nats_n_workers_multiset nw cap tr s :
+    nrun dlv (ninit P topic nw cap) tr = Some s ->
+    (exists rest, Permutation (n_log s ++ rest) (owed dlv topic 0 (npubs tr))) /\
+    NoDup (map i_id (n_log s)) /\
+    (0 < nw -> 0 < cap -> unsub_free tr -> crash_free tr -> nquiescent s ->
+     Permutation (n_log s) (owed dlv topic 0 (npubs tr))).
+  Proof.
+    intros Hrun. pose proof (nrun_inv nw cap tr s Hrun) as Hi.
+    destruct (ni_perm _ _ _ Hi) as [dropped [Hp Hd]].
+    assert (Hsub : exists rest, Permutation (n_log s ++ rest) (owed dlv topic 0 (npubs tr))) by (eexists; exact Hp).
+    split; [exact Hsub|]. split.
+    - destruct Hsub as [rest Hr].
+      pose proof (owed_nodup (npubs tr) 0) as Hn.
+      apply (Permutation_map i_id) in Hr. apply Permutation_sym in Hr.
+      pose proof (Permutation_NoDup Hr Hn) as Hn2. rewrite map_app in Hn2. now apply NoDup_app_l in Hn2.
+    - intros Hnw Hcap Hu Hc Hq. destruct (nquiescent_empty nw tr s Hi Hu Hc) as [Et Ef]; auto.
+      { rewrite (nrun_cap _ _ _ Hrun). exact Hcap. }
+      rewrite Et, Ef, (Hd Hu) in Hp. cbn in Hp. now rewrite app_nil_r in Hp.
+  Qed.
+
+  (** c07_foreign_never_delivered / intact (NATS): every invocation is for a message published on the
+      subscribed topic, and carries exactly what that message decodes to *)
+  Lemma nats_invocations_are_published nw cap tr s i :
+    nrun dlv (ninit P topic nw cap) tr = Some s -> In i (n_log s) ->
+    exists b, nth_error (npubs tr) (i_id i) = Some (topic, b) /\ dlv b = Deliver (i_hdrs i) (i_val i).
+  Proof.
+    intros Hrun Hin. destruct (nats_n_workers_multiset nw cap tr s Hrun) as [[rest Hp] _].
+    assert (Ho : In i (owed dlv topic 0 (npubs tr))).
+    { eapply Permutation_in; [exact Hp|]. apply in_or_app. now left. }
+    apply owed_spec in Ho. destruct Ho as (t & b & Hn & _ & -> & Hd). rewrite Nat.sub_0_r in Hn. eauto.
+  Qed.
+
+  (** c07_bad_message_isolated (NATS) *)
+  Lemma nats_bad_message_isolated nw cap tr s :
+    0 < nw -> 0 < cap -> nrun dlv (ninit P topic nw cap) tr = Some s -> unsub_free tr -> crash_free tr ->
+    Forall alive (n_workers s) /\
+    (nquiescent s -> forall k b h p, nth_error (npubs tr) k = Some (topic, b) -> dlv b = Deliver h p ->
+                     In (mkInv k h p) (n_log s)).
+  Proof.
+    intros Hnw Hcap Hrun Hu Hc. pose proof (nrun_inv nw cap tr s Hrun) as Hi. split.
+    - apply (ni_alive _ _ _ Hi Hu Hc).
+    - intros Hq k b h p Hn Hd.
+      destruct (nats_n_workers_multiset nw cap tr s Hrun) as (_ & _ & Hall).
+      specialize (Hall Hnw Hcap Hu Hc Hq). eapply Permutation_in; [apply Permutation_sym; exact Hall|].
+      apply owed_spec. exists topic, b. cbn. rewrite Nat.sub_0_r. repeat split; auto. lia.
+  Qed.
+
+  (** ** nothing starts after Unsubscribe *)
+  Definition nbound (k : nat) (s : nats P) : Prop :=
+    (forall m, In m (took (n_workers s) ++ nflight s) -> m_id m < k) /\
+    (forall i, In i (n_log s) -> i_id i < k).
+
+  Lemma nstep_bound k s e s' :
+    nstep dlv s e = Some s' -> nbound k s ->
+    (forall t b, e = NPub t b -> n_sub s = true -> n_next s < k) ->
+    nbound k s' /\ (n_sub s = false -> n_sub s' = false).
+  Proof.
+    intros Hstep [Hm Hl] Hk.
+    destruct e as [t b| | |i|i|i| |i]; cbn [nstep] in Hstep.
+    - injection Hstep as <-. split; [|auto]. split; cbn [n_workers n_log]; [|exact Hl].
+      intros m Hin. unfold nflight in Hin. cbn [n_workc n_cb n_pend] in Hin.
+      destruct (n_sub s) eqn:Es; cbn [andb] in Hin.
+      + destruct (Headers.bytes_eqb t (n_topic s)).
+        * rewrite !in_app_iff in Hin. cbn in Hin.
+          assert (Hc : In m (took (n_workers s) ++ nflight s) \/ m = mkMsg (n_next s) t b).
+          { unfold nflight. rewrite !in_app_iff. intuition. }
+          destruct Hc as [Hc | ->]; [auto|]. cbn. eapply Hk; eauto.
+        * apply Hm. exact Hin.
+      + apply Hm. exact Hin.
+    - destruct (n_sub s) eqn:Es; [|discriminate]. destruct (n_cb s) eqn:Ec; [discriminate|].
+      destruct (n_pend s) as [|m rest] eqn:Ep; [discriminate|]. injection Hstep as <-.
+      split; [|intros; discriminate]. split; cbn [n_workers n_log]; [|exact Hl].
+      intros m0 Hin. apply Hm. unfold nflight in *. rewrite Ec, Ep. cbn [n_workc n_cb n_pend ocb] in *.
+      inapp. cbn in *. intuition.
+    - destruct (n_cb s) as [m|] eqn:Ec; [|discriminate].
+      destruct (length (n_workc s) <? n_cap s); [|discriminate]. injection Hstep as <-.
+      split; [|auto]. split; cbn [n_workers n_log]; [|exact Hl].
+      intros m0 Hin. apply Hm. unfold nflight in *. rewrite Ec. cbn [n_workc n_cb n_pend ocb] in *.
+      inapp. cbn in *. inapp. cbn in *. intuition.
+    - destruct (nth_error (n_workers s) i) as [w|] eqn:Ei; [|discriminate].
+      destruct w; try discriminate.
+      destruct (n_workc s) as [|m rest] eqn:Ew; [discriminate|]. injection Hstep as <-.
+      destruct (took_set_nth _ i WIdle (WTook m) Ei) as (pre & post & Et1 & Et2). cbn [took1] in Et1, Et2.
+      split; [|auto]. split; cbn [n_workers n_log]; [|exact Hl].
+      intros m0 Hin. apply Hm. rewrite Et2 in Hin. rewrite Et1. unfold nflight in *. rewrite Ew.
+      cbn [n_workc n_cb n_pend] in *. inapp. cbn in *. inapp. intuition.
+    - destruct (nth_error (n_workers s) i) as [w|] eqn:Ei; [|discriminate].
+      destruct w as [|m|m| |]; try discriminate.
+      assert (Hmk : m_id m < k).
+      { apply Hm. destruct (took_set_nth _ i (WTook m) WIdle Ei) as (pre & post & E1 & _). rewrite E1.
+        rewrite !in_app_iff. cbn. intuition. }
+      assert (Hrest : forall w', took1 w' = [] ->
+                forall m0, In m0 (took (set_nth i w' (n_workers s)) ++ nflight s) -> m_id m0 < k).
+      { intros w' Hw' m0 Hin. apply Hm.
+        destruct (took_set_nth _ i (WTook m) w' Ei) as (pre & post & E1 & E2). rewrite E2, Hw' in Hin. rewrite E1.
+        inapp. cbn in *. intuition. }
+      destruct (dlv (m_body m)) as [h p| |]; injection Hstep as <-; (split; [|auto]).
+      + split; cbn [n_workers n_log].
+        * apply (Hrest (WBusy m)). reflexivity.
+        * intros i0 Hin. apply in_app_iff in Hin. destruct Hin as [Hin|[<-|[]]]; [auto|exact Hmk].
+      + split; cbn [n_workers n_log n_with_worker]; [apply (Hrest WIdle); reflexivity|exact Hl].
+      + split; cbn [n_workers n_log n_with_worker]; [apply (Hrest WDead); reflexivity|exact Hl].
+    - destruct (nth_error (n_workers s) i) as [w|] eqn:Ei; [|discriminate].
+      destruct w as [|m|m| |]; try discriminate. injection Hstep as <-.
+      destruct (took_set_nth _ i (WBusy m) WIdle Ei) as (pre & post & Et1 & Et2). cbn [took1] in Et1, Et2.
+      split; [|auto]. split; cbn [n_workers n_log n_with_worker]; [|exact Hl].
+      intros m0 Hin. apply Hm. rewrite Et2 in Hin. now rewrite Et1.
+    - destruct (n_sub s) eqn:Es; injection Hstep as <-; [|split; [split|]; auto].
+      split; [|auto]. split; cbn [n_workers n_log]; [|exact Hl].
+      intros m0 Hin. apply Hm. unfold nflight in *. cbn [n_workc n_cb n_pend] in *.
+      inapp. cbn in Hin. intuition.
+    - destruct (nth_error (n_workers s) i) as [w|] eqn:Ei; [|discriminate].
+      destruct w; try discriminate. destruct (n_quit s); [|discriminate]. injection Hstep as <-.
+      destruct (took_set_nth _ i WIdle WGone Ei) as (pre & post & Et1 & Et2). cbn [took1] in Et1, Et2.
+      split; [|auto]. split; cbn [n_workers n_log n_with_worker]; [|exact Hl].
+      intros m0 Hin. apply Hm. rewrite Et2 in Hin. now rewrite Et1.
+  Qed.
+
+  Lemma nstep_next s e s' : nstep dlv s e = Some s' -> n_next s <= n_next s' /\ (forall t b, e = NPub t b -> n_next s' = S (n_next s)).
+  Proof.
+    destruct e as [t b| | |i|i|i| |i]; cbn [nstep]; intros H.
+    - injection H as <-. cbn. split; [lia|auto].
+    - destruct (n_sub s), (n_cb s), (n_pend s); try discriminate. injection H as <-. split; [cbn; lia|discriminate].
+    - destruct (n_cb s); [|discriminate]. destruct (_ <? _); [|discriminate]. injection H as <-. split; [cbn; lia|discriminate].
+    - destruct (nth_error _ _) as [[]|]; try discriminate. destruct (n_workc s); [discriminate|]. injection H as <-. split; [cbn; lia|discriminate].
+    - destruct (nth_error _ _) as [[]|]; try discriminate. destruct (dlv _); injection H as <-; (split; [cbn; lia|discriminate]).
+    - destruct (nth_error _ _) as [[]|]; try discriminate. injection H as <-. split; [cbn; lia|discriminate].
+    - destruct (n_sub s); injection H as <-; (split; [cbn; lia|discriminate]).
+    - destruct (nth_error _ _) as [[]|]; try discriminate. destruct (n_quit s); [|discriminate]. injection H as <-. split; [cbn; lia|discriminate].
+  Qed.
+
+  Lemma nbound_mono k k' s : k <= k' -> nbound k s -> nbound k' s.
+  Proof. intros Hk [H1 H2]. split; intros x Hx; [apply H1 in Hx|apply H2 in Hx]; lia. Qed.
+
+  (** every id in the machine is below the number of publishes so far *)
+  Lemma nrun_bound_next nw cap tr : forall s,
+    nrun dlv (ninit P topic nw cap) tr = Some s -> nbound (n_next s) s.
+  Proof.
+    induction tr as [|e tr IH] using rev_ind; intros s Hrun.
+    - cbn in Hrun. injection Hrun as <-. split; cbn.
+      + intros m. rewrite took_repeat_idle. cbn. contradiction.
+      + contradiction.
+    - rewrite nrun_app in Hrun. destruct (nrun dlv (ninit P topic nw cap) tr) as [s1|] eqn:E1; [|discriminate].
+      cbn in Hrun. destruct (nstep dlv s1 e) as [s2|] eqn:E2; [|discriminate]. injection Hrun as <-.
+      destruct (nstep_next _ _ _ E2) as [Hle Hpub].
+      apply (nstep_bound (n_next s2) s1 e s2 E2).
+      + eapply nbound_mono; [exact Hle|]. now apply IH.
+      + intros t b -> _. rewrite (Hpub t b eq_refl). lia.
+  Qed.
+
+  Lemma nrun_bound_unsub k tr : forall s s',
+    n_sub s = false -> nbound k s -> nrun dlv s tr = Some s' -> nbound k s'.
+  Proof.
+    induction tr as [|e tr IH]; intros s s' Hs Hb Hrun; cbn in Hrun; [now injection Hrun as <-|].
+    destruct (nstep dlv s e) as [s1|] eqn:E; [|discriminate].
+    destruct (nstep_bound k s e s1 E Hb) as [Hb1 Hs1]; [intros; congruence|].
+    apply (IH s1 s'); [apply Hs1; exact Hs | exact Hb1 | exact Hrun].
+  Qed.
+
+  (** c07_nothing_starts_after_unsubscribe (NATS) *)
+  Lemma nats_nothing_after_unsubscribe nw cap tr1 tr2 s1 s2 :
+    nrun dlv (ninit P topic nw cap) tr1 = Some s1 ->
+    nrun dlv s1 (NUnsub :: tr2) = Some s2 ->
+    forall i, In i (n_log s2) -> i_id i < length (npubs tr1).
+  Proof.
+    intros H1 H2 i Hin. pose proof (nrun_bound_next nw cap tr1 s1 H1) as Hb.
+    rewrite (ni_next _ _ _ (nrun_inv nw cap tr1 s1 H1)) in Hb.
+    cbn [nrun] in H2. destruct (nstep dlv s1 NUnsub) as [s1'|] eqn:E; [|discriminate].
+    destruct (nstep_bound _ _ _ _ E Hb) as [Hb1 _]; [discriminate|].
+    assert (Hs : n_sub s1' = false).
+    { cbn in E. destruct (n_sub s1) eqn:Es; injection E as <-; auto. }
+    destruct (nrun_bound_unsub _ tr2 s1' s2 Hs Hb1 H2) as [_ Hl]. now apply Hl.
   Qed.
 End Proofs.
